@@ -305,6 +305,12 @@ var c20Templates = []string{"autolink", "blockquote", "code_block", "code_span",
 const c20AllKinds = "# H\n\npara *em* **st** `cs` [l](u) ![i](s) ~~d~~ <http://a.b> <i>r</i>  \nbr\n\n> q\n\n- [x] t\n\n1. o\n\n```go\nc\n```\n\n| a |\n|---|\n| b |\n\n---\n"
 
 func runC20(r *Run, replay *Case) {
+	if replay != nil && replay.Input["stream"] == "history" {
+		var docs []string
+		remarshal(replay.Input["docs"], &docs)
+		c20HistoryReplay(r, docs)
+		return
+	}
 	if replay != nil {
 		var ov map[string]string
 		if replay.Input["overrides"] != nil {
@@ -319,6 +325,7 @@ func runC20(r *Run, replay *Case) {
 	for _, s := range []string{"plain *em* text", "a < b & c", "&amp; &copy; &lt;", `\*literal\* \\ back`, "{{ name }} {{secret}}", "# Hello <there>", "`{{ x }}` and `<b>`", "[l](http://x/?a=1&b=2 \"t\")", `write \&copy; and \&amp; and &#38;lt; once`, "# The \\&amp; entity\n\n- *\\&nbsp;*\n\n| a |\n|---|\n| \\&amp; |", c20AllKinds} {
 		r.Add(c20Eval(s, nil))
 	}
+	c20History(r)
 	g := &mdGen{r: r.Rng}
 	n := 800
 	if r.Thorough() {
